@@ -43,7 +43,11 @@ RULE = ('calls drawn from the seven supported argument sets (area; area+duration
         'stream (missing or conflicting arguments, too short durations, beyond amplitude or slew limits, zero or '
         'negative rise / fall / flat times and durations on every path, bad channel) where the exception class '
         'must equal the model\'s; a threshold stream '
-        '(exactly minimal duration, exactly at a limit) that is oracle-only; and a fixed corpus incl. thresholds whose '
+        '(exactly minimal duration, exactly at a limit) that is oracle-only; a band stream whose math.ceil arguments '
+        'are (nearly) integers / perfect squares, where a one-raster divergence of model and code is admitted '
+        'exactly inside the bands of theorems ceil_robust_band / ceil_sqrt_div_robust_band; sibling calls (same '
+        'request under a system differing in the raster only / the limits only / not at all, to expose state '
+        'carried between calls); and a fixed corpus incl. thresholds whose '
         'float arithmetic is exact.  distinct = distinct calls; non-trivial = the call returned an event or raised '
         'one of the modelled exception classes other than the argument-presence ones')
 TRUSTED = ['binary64 arithmetic of make_trapezoid (sqrt, quotients before math.ceil, sums) is outside the model: sampled',
@@ -267,6 +271,22 @@ def gen_valid(rng, kind=None):
     if rng.random() < 0.35:
         a['delay'] = rng.choice([0.0, tm(rng.randint(0, 300) * R), tm(rng.uniform(0, 3e-3))])
     return case
+
+
+def sibling(rng, case):
+    """the same request once more under a system that differs in ONE respect (raster only, limits only, or
+    nothing at all): the result may depend on the arguments and the system passed, never on earlier calls"""
+    import copy
+    c = copy.deepcopy(case)
+    how = rng.choice(['raster', 'raster', 'limits', 'same'])
+    if how == 'raster':
+        c['sys']['raster'] = rng.choice([r for r in (4e-6, 5e-6, 10e-6, 20e-6) if r != c['sys']['raster']])
+    elif how == 'limits':
+        c['sys']['max_slew'] = c['sys']['max_slew'] * rng.choice([2, 4])
+        if c['sys']['slew_unit'] == 'Hz/m/s':
+            c['sys']['max_slew'] = float(round(c['sys']['max_slew']))
+    c['sibling'] = how
+    return c
 
 
 # ------------------------------------------------------------------------------------------------
@@ -965,6 +985,8 @@ def process(ctx, cases):
                 ctx.count('ramps.' + c['ramps'])
             if c.get('regime'):
                 ctx.count('regime.' + c['regime'])
+            if c.get('sibling'):
+                ctx.count('sibling.' + c['sibling'])
             v = r[1]
             ctx.count('sign.' + ('zero' if v[0] == 0 else 'pos' if v[0] > 0 else 'neg'))
             ctx.count('shape.' + ('triangle' if v[2] == 0 else 'trapezoid'))
@@ -992,6 +1014,8 @@ def run(ctx):
             u = (done + i) % 20
             if u < 13:
                 cases.append(gen_valid(rv))
+                if rv.random() < 0.1:
+                    cases.append(sibling(rv, cases[-1]))
             elif u < 17:
                 cases.append(gen_invalid(ri))
             elif u < 19:
